@@ -1,0 +1,85 @@
+//go:build verif
+
+// Contracts of the address constructors, formatters and parsers (property C18) for the kvc
+// verifier (see /verif/DESIGN.md). Comment-only. The text layer (fmt.Sprintf, strings.Split,
+// strconv.Atoi) is an assumed contract over the abstract view nparts/part/atoiok/atoiv.
+
+package cemi
+
+//@ spec pok(s string, c uint8, k int) bool = atoiok(part(s, c, k))
+//@ spec pv(s string, c uint8, k int) int = atoiv(part(s, c, k))
+//@ spec inr(x int, lo int, hi int) bool = lo <= x && x <= hi
+
+//@ func NewGroupAddr3(a uint8, b uint8, c uint8) (r GroupAddr)
+//@   props C18
+//@   ensures [fields] uint16(r)>>11 == uint16(a)&31 && (uint16(r)>>8)&7 == uint16(b)&7 && uint16(r)&255 == uint16(c)
+
+//@ func NewGroupAddr2(a uint8, b uint16) (r GroupAddr)
+//@   props C18
+//@   ensures [fields] uint16(r)>>11 == uint16(a)&31 && uint16(r)&2047 == b&2047
+
+//@ func NewIndividualAddr3(a uint8, b uint8, c uint8) (r IndividualAddr)
+//@   props C18
+//@   ensures [fields] uint16(r)>>12 == uint16(a)&15 && (uint16(r)>>8)&15 == uint16(b)&15 && uint16(r)&255 == uint16(c)
+
+//@ func NewIndividualAddr2(a uint8, b uint8) (r IndividualAddr)
+//@   props C18
+//@   ensures [fields] uint16(r)>>8 == uint16(a) && uint16(r)&255 == uint16(b)
+
+//@ func (addr GroupAddr) String() (s string)
+//@   props C18
+//@   ensures [three-level] nparts(s, '/') == 3 && pok(s, '/', 0) && pok(s, '/', 1) && pok(s, '/', 2)
+//@   ensures [fields] pv(s, '/', 0) == int(uint16(addr)>>11) && pv(s, '/', 1) == int((uint16(addr)>>8)&7) && pv(s, '/', 2) == int(uint16(addr)&255)
+
+//@ func (addr IndividualAddr) String() (s string)
+//@   props C18
+//@   ensures [three-level] nparts(s, '.') == 3 && pok(s, '.', 0) && pok(s, '.', 1) && pok(s, '.', 2)
+//@   ensures [fields] pv(s, '.', 0) == int(uint16(addr)>>12) && pv(s, '.', 1) == int((uint16(addr)>>8)&15) && pv(s, '.', 2) == int(uint16(addr)&255)
+
+//@ spec validG3(s string) bool = nparts(s, '/') == 3 && pok(s, '/', 0) && pok(s, '/', 1) && pok(s, '/', 2) && inr(pv(s, '/', 0), 0, 31) && inr(pv(s, '/', 1), 0, 7) && inr(pv(s, '/', 2), 0, 255) && !(pv(s, '/', 0) == 0 && pv(s, '/', 1) == 0 && pv(s, '/', 2) == 0)
+//@ spec validG2(s string) bool = nparts(s, '/') == 2 && pok(s, '/', 0) && pok(s, '/', 1) && inr(pv(s, '/', 0), 0, 31) && inr(pv(s, '/', 1), 0, 2047) && !(pv(s, '/', 0) == 0 && pv(s, '/', 1) == 0)
+//@ spec validG1(s string) bool = nparts(s, '/') == 1 && pok(s, '/', 0) && inr(pv(s, '/', 0), 1, 65535)
+
+//@ func NewGroupAddrString(addr string) (r GroupAddr, err error)
+//@   props C18
+//@   ensures [language] err == nil <==> validG3(addr) || validG2(addr) || validG1(addr)
+//@   ensures [three-level] err == nil && nparts(addr, '/') == 3 ==> int(r) == pv(addr, '/', 0)<<11 | pv(addr, '/', 1)<<8 | pv(addr, '/', 2)
+//@   ensures [two-level] err == nil && nparts(addr, '/') == 2 ==> int(r) == pv(addr, '/', 0)<<11 | pv(addr, '/', 1)
+//@   ensures [raw] err == nil && nparts(addr, '/') == 1 ==> int(r) == pv(addr, '/', 0)
+//@   ensures [zero-on-error] err != nil ==> r == 0
+//@   loop 0 invariant len(nums) == rangeindex + 1 && rangeindex >= -1 && rangeindex < len(numstrings)
+//@   loop 0 invariant len(nums) >= 1 ==> pok(addr, '/', 0) && nums[0] == pv(addr, '/', 0)
+//@   loop 0 invariant len(nums) >= 2 ==> pok(addr, '/', 1) && nums[1] == pv(addr, '/', 1)
+//@   loop 0 invariant len(nums) >= 3 ==> pok(addr, '/', 2) && nums[2] == pv(addr, '/', 2)
+//@   loop 0 decreases len(numstrings) - rangeindex
+//@   loop 0 assigns nums[len(nums):cap(nums)]
+
+//@ spec validI3(s string) bool = nparts(s, '.') == 3 && pok(s, '.', 0) && pok(s, '.', 1) && pok(s, '.', 2) && inr(pv(s, '.', 0), 0, 15) && inr(pv(s, '.', 1), 0, 15) && inr(pv(s, '.', 2), 0, 255) && !(pv(s, '.', 0) == 0 && pv(s, '.', 1) == 0 && pv(s, '.', 2) == 0)
+//@ spec validI2(s string) bool = nparts(s, '.') == 2 && pok(s, '.', 0) && pok(s, '.', 1) && inr(pv(s, '.', 0), 0, 255) && inr(pv(s, '.', 1), 0, 255) && !(pv(s, '.', 0) == 0 && pv(s, '.', 1) == 0)
+//@ spec validI1(s string) bool = nparts(s, '.') == 1 && pok(s, '.', 0) && inr(pv(s, '.', 0), 1, 65535)
+
+//@ func NewIndividualAddrString(addr string) (r IndividualAddr, err error)
+//@   props C18
+//@   ensures [language] err == nil <==> validI3(addr) || validI2(addr) || validI1(addr)
+//@   ensures [three-level] err == nil && nparts(addr, '.') == 3 ==> int(r) == pv(addr, '.', 0)<<12 | pv(addr, '.', 1)<<8 | pv(addr, '.', 2)
+//@   ensures [two-level] err == nil && nparts(addr, '.') == 2 ==> int(r) == pv(addr, '.', 0)<<8 | pv(addr, '.', 1)
+//@   ensures [raw] err == nil && nparts(addr, '.') == 1 ==> int(r) == pv(addr, '.', 0)
+//@   ensures [zero-on-error] err != nil ==> r == 0
+//@   loop 0 invariant len(nums) == rangeindex + 1 && rangeindex >= -1 && rangeindex < len(numstrings)
+//@   loop 0 invariant len(nums) >= 1 ==> pok(addr, '.', 0) && nums[0] == pv(addr, '.', 0)
+//@   loop 0 invariant len(nums) >= 2 ==> pok(addr, '.', 1) && nums[1] == pv(addr, '.', 1)
+//@   loop 0 invariant len(nums) >= 3 ==> pok(addr, '.', 2) && nums[2] == pv(addr, '.', 2)
+//@   loop 0 decreases len(numstrings) - rangeindex
+//@   loop 0 assigns nums[len(nums):cap(nums)]
+
+//@ func lemmaC18_group(a GroupAddr)
+//@   props C18
+
+//@ func lemmaC18_individual(a IndividualAddr)
+//@   props C18
+
+//@ func lemmaC18_ctor_group(a uint8, b uint8, c uint8, m uint16)
+//@   props C18
+
+//@ func lemmaC18_ctor_individual(a uint8, b uint8, c uint8)
+//@   props C18
